@@ -6,7 +6,9 @@ import PdshVerif.Pcp.Spec
 Theorems about the sender model (`send`, Pcp/Send.lean: `pcp_expand_dirs` walk + `pcp_sendfile`
 records) and the receiver model (`sink`/`run`, Pcp/Sink.lean: `_sink` as a byte automaton) over the
 file-system model Pcp/FS.lean, for **all** trees in the domain of C11 (`SrcsOk`, `GoodKids`), all
-sizes, all option settings, both receiver variants.
+sizes, all option settings, every probed variant of sender and receiver (name rule none / slash-or-
+dotdot / scp; chmod after mkdir or not; microseconds sent or not; sentinel repair or not), without
+write faults (`o.fsize = none`).  Times are in microseconds, the resolution of the `T` record.
 
 * `copy_roundtrip`   -- `sink` applied to the byte stream `send` produces for the sources installs
                         exactly `recvKids` (the source trees under the names sent, recursively: every
@@ -17,12 +19,14 @@ sizes, all option settings, both receiver variants.
 * `file_any_size`    -- the single-file case spelled out at the byte level: record + data + NUL, any
                         length (0, 1, ..., beyond several BUFSIZ blocks: `foldl_data` = blocks_concat).
 * `received_file`, `preserve_meta_file`
-                     -- what a regular file arrives as: same bytes; with -p same twelve mode bits and
-                        modification time; without -p mode & ~umask.
-* `preserve_meta_dir`-- with -p a directory arrives with its mode and modification time PROVIDED its mode
-                        has no set-user/group-ID bit and the parent has no set-group-ID bit (the code
-                        never chmods a directory it creates: finding F11-DIRMODE-SETID); the general
-                        statement is `received_dir`.
+                     -- what a regular file arrives as: same bytes; with -p same twelve mode bits and the
+                        modification time the sender transmits: to the microsecond with the repaired
+                        sender (`subsec`), whole seconds with the code as found (F11-MTIME-SUBSEC).
+* `received_dir`, `preserve_meta_dir`, `preserve_meta_dir_repaired`
+                     -- a directory arrives with the mode `mkdir` gives it, so with -p its mode is
+                        preserved PROVIDED it has no set-ID bit and the parent no set-group-ID bit
+                        (F11-DIRMODE-SETID); with the repaired receiver (`dirChmod`: chmod after mkdir)
+                        unconditionally.
 * `reverse_names`    -- in a reverse copy an entry the user named `dir/base` is sent as `base.host`.
 
 Not proved: that the directories hold *no other* entries than the source's (the `names` clause of
@@ -36,15 +40,16 @@ open PdshVerif.Pcp PdshVerif.Gen
 
 /-- **Round trip.**  `dest` resolves to an existing directory `D`; the names the sources are sent
 under are good, pairwise distinct, short enough, and not yet present below `D`; then the receiver fed
-with the sender's stream ends with the file system `recvKids o fs D (namedSrcs so srcs)` and has
-answered with acknowledgements only. -/
-theorem copy_roundtrip (o : Opts) (hc : CntOk o) (so : SOpts) (hp : so.preserve = o.preserve) (fs : FS)
+with the sender's stream ends with the file system `recvKids o so.subsec fs D (namedSrcs so srcs)` and
+has answered with acknowledgements only. -/
+theorem copy_roundtrip (o : Opts) (hc : CntOk o) (hnf : o.fsize = none) (so : SOpts)
+    (hp : so.preserve = o.preserve) (fs : FS)
     (D : Path) (srcs : List (Str × Tree)) (budget : Nat)
     (hres : resolve fs o.cwd o.dest = some D) (hdir : fs.isDir D = true)
-    (hsrc : SrcsOk srcs) (hb : o.dest.length + budget < PCP_PATH_MAX)
+    (hsrc : SrcsOk so srcs) (hb : o.dest.length + budget < PCP_PATH_MAX)
     (hgood : GoodKids budget (namedSrcs so srcs))
     (hfresh : ∀ n k, (n, k) ∈ namedSrcs so srcs → FreshBelow fs (D ++ [n])) :
-    (sink o fs (send so srcs)).1 = recvKids o fs D (namedSrcs so srcs) ∧
+    (sink o fs (send so srcs)).1 = recvKids o so.subsec fs D (namedSrcs so srcs) ∧
     ∀ r ∈ (sink o fs (send so srcs)).2.1, r = Reply.ack := by
   have hv : VerifyOk o fs := fun _ => ⟨D, hres, hdir⟩
   have h0 : enter o (St.init fs) o.dest =
@@ -59,7 +64,7 @@ theorem copy_roundtrip (o : Opts) (hc : CntOk o) (so : SOpts) (hp : so.preserve 
     exact ⟨rfl, rfl, rfl, hres, hdir, hv, ⟨usecOk_zero _, usecOk_zero _⟩⟩
   have hfresh' : ∀ n k, (n, k) ∈ namedSrcs so srcs → FreshBelow (enter o (St.init fs) o.dest).fs (D ++ [n]) := by
     rw [h0]; exact hfresh
-  have hfed := feed_kids hc (namedSrcs so srcs) budget _ _ [] D hat rfl hb hgood hfresh'
+  have hfed := feed_kids hc hnf so.subsec (namedSrcs so srcs) budget _ _ [] D hat rfl hb hgood hfresh'
   rw [← hp, ← send_eq so srcs hsrc] at hfed
   generalize hst : (send so srcs).foldl (step o) (enter o (St.init fs) o.dest) = st' at hfed
   obtain ⟨⟨f', hat', _, _⟩, hfs, _, acks, hacks, hacksa⟩ := hfed
@@ -85,7 +90,8 @@ theorem copy_roundtrip (o : Opts) (hc : CntOk o) (so : SOpts) (hp : so.preserve 
 /-- **One file of any size** at the byte level (`feed_C` re-stated): at a record boundary in a
 directory, `C<mode> <size> <name>\n` + the bytes + NUL create exactly that file, with two
 acknowledgements. -/
-theorem file_any_size (o : Opts) (hc : CntOk o) (st : St) (f : Frame) (rest : List Frame) (q : Path)
+theorem file_any_size (o : Opts) (hc : CntOk o) (hnf : o.fsize = none) (st : St) (f : Frame)
+    (rest : List Frame) (q : Path)
     (hat : AtDir o st f rest q) (hns : f.setimes = false) (n : Str) (hn : GoodName n)
     (hfresh : st.fs (q ++ [n]) = none) (hlen : f.targ.length + n.length + 1 < PCP_PATH_MAX)
     (m : Nat) (d : Str) (hsz : d.length < 2 ^ 63) :
@@ -93,41 +99,43 @@ theorem file_any_size (o : Opts) (hc : CntOk o) (st : St) (f : Frame) (rest : Li
     st'.fs (q ++ [n]) = some (.file (maskOff (m &&& RCP_MODEMASK) o.eumask) none d) ∧
     st'.out = .ack :: .ack :: st.out ∧ st'.touched = (q ++ [n]) :: st.touched ∧ st'.phase = .start := by
   simp only
-  rw [feed_C hc hat.phase hat.stack hat.isdir hat.res hat.dir hn hfresh hlen m d hsz hat.us]
+  rw [feed_C hc hnf hat.phase hat.stack hat.isdir hat.res hat.dir hn hfresh hlen m d hsz hat.us]
   simp [hns, set_self, recvFile]
 
 /-! ## what arrives -/
 
 /-- **Files arrive with their bytes**: the node for a regular file among the received siblings. -/
-theorem received_file (o : Opts) (fs : FS) (q : Path) (kids : List (Str × Tree)) (n : Str) (m t a : Nat)
-    (d : Str) (hm : (n, Tree.file m t a d) ∈ kids) (hd : kids.Pairwise (fun a b => a.1 ≠ b.1)) :
-    recvKids o fs q kids (q ++ [n]) =
-      some (.file (maskOff (m &&& RCP_MODEMASK) o.eumask) (if o.preserve then some ⟨t, 0⟩ else none) d) := by
-  obtain ⟨fs0, h⟩ := recvKids_lookup o fs q kids n _ hm hd
+theorem received_file (o : Opts) (ss : Bool) (fs : FS) (q : Path) (kids : List (Str × Tree)) (n : Str)
+    (m t a : Nat) (d : Str) (hm : (n, Tree.file m t a d) ∈ kids) (hd : kids.Pairwise (fun a b => a.1 ≠ b.1)) :
+    recvKids o ss fs q kids (q ++ [n]) =
+      some (.file (maskOff (m &&& RCP_MODEMASK) o.eumask) (if o.preserve then some (sentTime ss t) else none) d) := by
+  obtain ⟨fs0, h⟩ := recvKids_lookup o ss fs q kids n _ hm hd
   rw [h]
   simp [recvTree, set_self, recvFile]
 
-/-- **-p preserves mode and modification time of files.** -/
-theorem preserve_meta_file (o : Opts) (hp : o.preserve = true) (fs : FS) (q : Path)
+/-- **-p preserves mode and modification time of files**: to the microsecond with the repaired sender,
+to the second with the code as found. -/
+theorem preserve_meta_file (o : Opts) (hp : o.preserve = true) (ss : Bool) (fs : FS) (q : Path)
     (kids : List (Str × Tree)) (n : Str) (m t a : Nat) (d : Str) (hm : (n, Tree.file m t a d) ∈ kids)
     (hd : kids.Pairwise (fun a b => a.1 ≠ b.1)) :
-    recvKids o fs q kids (q ++ [n]) = some (.file (m % 4096) (some ⟨t, 0⟩) d) := by
-  rw [received_file o fs q kids n m t a d hm hd]
-  simp [hp, Opts.eumask, maskOff_zero]
+    recvKids o ss fs q kids (q ++ [n]) =
+      some (.file (m % 4096) (some ⟨((t / USEC : Nat) : Int), ((if ss then t % USEC else 0 : Nat) : Int)⟩) d) := by
+  rw [received_file o ss fs q kids n m t a d hm hd]
+  simp [hp, Opts.eumask, maskOff_zero, sentUsec]
 
-/-- **Directories arrive** with the mode `mkdir` gives them (permission and sticky bits of the source
-mode under the umask, set-group-ID inherited from the parent) and, with -p, the source's
-modification time. -/
-theorem received_dir (o : Opts) (fs : FS) (q : Path) (n : Str) (m t a : Nat) (kids : List (Str × Tree)) :
-    recvTree o fs q n (.dir m t a kids) (q ++ [n]) =
-      some (.dir (mkdirMode (m &&& RCP_MODEMASK) o.eumask (parentMode fs (q ++ [n])))
-        (if o.preserve then some ⟨t, 0⟩ else none)) ∨
-    (o.preserve = false ∧ ∃ tm, recvTree o fs q n (.dir m t a kids) (q ++ [n]) =
-      some (.dir (mkdirMode (m &&& RCP_MODEMASK) o.eumask (parentMode fs (q ++ [n]))) tm)) := by
+/-- **Directories arrive** with the mode `recvDirMode` (what `mkdir` gives: permission and sticky bits
+of the source mode under the umask, set-group-ID inherited from the parent; or, repaired receiver with
+-p, the source's twelve bits) and, with -p, the source's modification time. -/
+theorem received_dir (o : Opts) (ss : Bool) (fs : FS) (q : Path) (n : Str) (m t a : Nat)
+    (kids : List (Str × Tree)) :
+    recvTree o ss fs q n (.dir m t a kids) (q ++ [n]) =
+      some (.dir (recvDirMode o fs q n m) (if o.preserve then some (sentTime ss t) else none)) ∨
+    (o.preserve = false ∧ ∃ tm, recvTree o ss fs q n (.dir m t a kids) (q ++ [n]) =
+      some (.dir (recvDirMode o fs q n m) tm)) := by
   have h1 : ((fs.bumpDir q).set (q ++ [n]) (recvDirNode o fs q n m)) (q ++ [n]) =
-      some (.dir (mkdirMode (m &&& RCP_MODEMASK) o.eumask (parentMode fs (q ++ [n]))) none) := by
+      some (.dir (recvDirMode o fs q n m) none) := by
     rw [set_self]; rfl
-  obtain ⟨tm', h2⟩ := recvKids_parent o _ (q ++ [n]) kids _ _ h1
+  obtain ⟨tm', h2⟩ := recvKids_parent o ss _ (q ++ [n]) kids _ _ h1
   simp only [recvTree]
   by_cases hp : o.preserve = true
   · left
@@ -140,20 +148,36 @@ theorem received_dir (o : Opts) (fs : FS) (q : Path) (n : Str) (m t a : Nat) (ki
     exact ⟨hp', tm', by simp only [hp', Bool.false_eq_true, ↓reduceIte]; exact h2⟩
 
 /-- **-p preserves mode and modification time of directories** whose mode has no set-ID bit, below a
-parent without set-group-ID (otherwise not: finding F11-DIRMODE-SETID). -/
-theorem preserve_meta_dir (o : Opts) (hp : o.preserve = true) (fs : FS) (q : Path) (n : Str)
+parent without set-group-ID (otherwise not, with the receiver as found: finding F11-DIRMODE-SETID). -/
+theorem preserve_meta_dir (o : Opts) (hp : o.preserve = true) (ss : Bool) (fs : FS) (q : Path) (n : Str)
     (m t a : Nat) (kids : List (Str × Tree)) (hm : m % 4096 < 1024)
     (hpar : parentMode fs (q ++ [n]) &&& 0o2000 = 0) :
-    recvTree o fs q n (.dir m t a kids) (q ++ [n]) = some (.dir (m % 4096) (some ⟨t, 0⟩)) := by
-  rcases received_dir o fs q n m t a kids with h | ⟨h, _⟩
+    recvTree o ss fs q n (.dir m t a kids) (q ++ [n]) = some (.dir (m % 4096) (some (sentTime ss t))) := by
+  rcases received_dir o ss fs q n m t a kids with h | ⟨h, _⟩
   · rw [h]
-    simp only [hp, ↓reduceIte, Opts.eumask, mkdirMode, maskOff_zero, hpar, Nat.or_zero]
-    have : m % 4096 &&& 0o1777 = m % 4096 := by
-      have := Nat.and_two_pow_sub_one_eq_mod (m % 4096) 10
-      simp only [Nat.reducePow, Nat.add_one_sub_one] at this
-      rw [show (0o1777 : Nat) = 1023 from rfl, this]
-      omega
-    rw [this]
+    have hmask : m &&& RCP_MODEMASK = m % 4096 := by
+      rw [MODEMASK_eq]; exact Nat.and_two_pow_sub_one_eq_mod m 12
+    have hmm : recvDirMode o fs q n m = m % 4096 := by
+      unfold recvDirMode
+      split
+      · rw [hmask, Nat.mod_mod]
+      · simp only [hp, Opts.eumask, ↓reduceIte, mkdirMode, maskOff_zero, hpar, Nat.or_zero]
+        have := Nat.and_two_pow_sub_one_eq_mod (m % 4096) 10
+        simp only [Nat.reducePow, Nat.add_one_sub_one] at this
+        rw [show (0o1777 : Nat) = 1023 from rfl, this]
+        omega
+    simp only [hp, ↓reduceIte, hmm]
+  · rw [hp] at h; cases h
+
+/-- with the repaired receiver (chmod after mkdir) -p preserves every directory mode -/
+theorem preserve_meta_dir_repaired (o : Opts) (hp : o.preserve = true) (hfix : o.dirChmod = true) (ss : Bool)
+    (fs : FS) (q : Path) (n : Str) (m t a : Nat) (kids : List (Str × Tree)) :
+    recvTree o ss fs q n (.dir m t a kids) (q ++ [n]) = some (.dir (m % 4096) (some (sentTime ss t))) := by
+  rcases received_dir o ss fs q n m t a kids with h | ⟨h, _⟩
+  · rw [h]
+    have hmask : m &&& RCP_MODEMASK = m % 4096 := by
+      rw [MODEMASK_eq]; exact Nat.and_two_pow_sub_one_eq_mod m 12
+    simp only [hp, ↓reduceIte, recvDirMode, hfix, Bool.and_self, hmask, Nat.mod_mod]
   · rw [hp] at h; cases h
 
 /-- the hypotheses of `preserve_meta_dir` are satisfiable: mode 0755 below a 0755 parent -/
@@ -189,11 +213,6 @@ theorem forward_names (so : SOpts) (hrev : so.reverse = false) (dir base : Str) 
   simp only [sentName, hrev, Bool.false_and, Bool.false_eq_true, ↓reduceIte]
   exact xbasename_join _ _ hb
 
-end PdshVerif.Props.C11
-
-namespace PdshVerif.Props.C11
-open PdshVerif.Pcp PdshVerif.Gen
-
 /-! ## the hypotheses of `copy_roundtrip` are satisfiable -/
 
 /-- `/w` is the working directory, `/w/d` the (empty) destination -/
@@ -204,20 +223,21 @@ def xfs : FS := fun p =>
   else none
 
 def xo : Opts :=
-  { preserve := true, targetIsDir := true, umask := 0o22, cnt := 8192, repaired := false,
-    cwd := [[119]], dest := [100] }
+  { preserve := true, targetIsDir := true, umask := 0o22, cnt := 8192, rule := .slashDotdot, dirChmod := false,
+    fsize := none, cwd := [[119]], dest := [100] }
 
-def xso : SOpts := { preserve := true, reverse := false, host := [] }
+def xso : SOpts := { preserve := true, reverse := false, host := [], subsec := true, sentinelFix := false }
 
-/-- `pdcp -r -p t /w/d` with `t/` holding the one-byte file `e` -/
-def xsrcs : List (Str × Tree) := [([116], .dir 0o750 1000 2000 [([101], .file 0o640 3000 4000 [88])])]
+/-- `pdcp -r -p t /w/d` with `t/` holding the one-byte file `e` (times in microseconds) -/
+def xsrcs : List (Str × Tree) :=
+  [([116], .dir 0o750 1000000007 2000000000 [([101], .file 0o640 3000000250 4000000000 [88])])]
 
 example :
-    (sink xo xfs (send xso xsrcs)).1 = recvKids xo xfs [[119], [100]] (namedSrcs xso xsrcs) ∧
+    (sink xo xfs (send xso xsrcs)).1 = recvKids xo true xfs [[119], [100]] (namedSrcs xso xsrcs) ∧
     (∀ r ∈ (sink xo xfs (send xso xsrcs)).2.1, r = Reply.ack) ∧
-    recvKids xo xfs [[119], [100]] (namedSrcs xso xsrcs) [[119], [100], [116], [101]] =
-      some (.file 0o640 (some ⟨3000, 0⟩) [88]) := by
-  have h := copy_roundtrip xo ⟨by decide, by decide⟩ xso rfl xfs [[119], [100]] xsrcs 100
+    recvKids xo true xfs [[119], [100]] (namedSrcs xso xsrcs) [[119], [100], [116], [101]] =
+      some (.file 0o640 (some ⟨3000, 250⟩) [88]) := by
+  have h := copy_roundtrip xo ⟨by decide, by decide⟩ rfl xso rfl xfs [[119], [100]] xsrcs 100
     (by decide +kernel) (by decide +kernel)
     (by simp only [xsrcs, SrcsOk, KidNamesOk, KidListOk]; decide)
     (by decide)
